@@ -160,6 +160,7 @@ def makeRemote (sourceType : Str) (u : UrlRec) (subPath : Str) : Option RemoteAd
   | none => none
   | some sub =>
     if Generated.makeChecksUser ∧ u.hasUser then none
+    else if Generated.makeChecksQuery ∧ u.queryErr then none
     else makeRemoteCore sourceType u sub
 
 end Slug
